@@ -11,6 +11,7 @@ existing target, medium_full, restart (implicit between processes).
 """
 import errno
 import hashlib
+import posixpath
 
 from ..gen import files as GF
 from ..gen import programs as GP
@@ -141,6 +142,14 @@ class Host(object):
             img = RD.blank()
             for f in files:
                 RD.save(img, f, r.choice(RD.POLICIES), r.below(1 << 16), r.choice(["decb", "tool"]))
+            for victim in desc.get("kill", []):
+                # Disk BASIC KILL: a deleted entry ($00) in front of live ones, freed granules
+                live = RD.live_entries(img)
+                if len(live) > 1:
+                    idx = victim % len(live)
+                    RD.kill(img, live[idx]["slot"])
+                    files = [f for j, f in enumerate(files) if j != idx]
+                    self.res.stats["fault:peer_kill"] += 1
             data = bytes(img)
             self.model[path] = {"kind": "dsk", "files": files, "writer": "peer"}
         elif state in ("raw", "arbitrary"):
@@ -312,6 +321,19 @@ class Host(object):
             res.stats["probe:append_kept_old_files"] += 1
         return True
 
+    def check_wrote_elsewhere(self, r, snapshot, targets, k):
+        """No invocation may create or modify a host file other than the targets it was given."""
+        for ev in r.wrote():
+            path = ev[2]
+            if path not in targets and path != "src.asm":
+                self.res.violate("WROTE-ELSEWHERE", "the invocation touched %s, which is not one of its targets %r: %r" % (path, sorted(targets), ev[1:4]), k)
+                return
+        after = self.w.fs.snapshot()
+        for path in sorted(set(snapshot) | set(after)):
+            if path not in targets and snapshot.get(path) != after.get(path):
+                self.res.violate("WROTE-ELSEWHERE", "%s changed although it is not one of the invocation's targets %r" % (path, sorted(targets)), k)
+                return
+
     # -- ops ---------------------------------------------------------------------------------
     def assemble_reference(self, lines):
         """The harness's own assembly of the same source with a separate Program instance."""
@@ -342,9 +364,13 @@ class Host(object):
         args = ["src.asm"]
         if op.get("name") is not None:
             args += ["--name", op["name"]]
+        spelled = {}
+        op = dict(op)
         for kind in KINDS:
             if op.get(kind):
-                args += ["--to_" + kind, op[kind]]
+                args += ["--to_" + kind, op[kind]]          # as the user spelled it (./x, ~/x)
+                spelled[kind] = op[kind]
+                op[kind] = posixpath.normpath(op[kind])      # the key under which the simulated host stores it
         if op.get("append"):
             args.append("--append")
         if op.get("print"):
@@ -352,6 +378,7 @@ class Host(object):
         if op.get("symbols"):
             args.append("--symbols")
         before = {op[kind]: w.get(op[kind]) for kind in KINDS if op.get(kind)}
+        snapshot = w.fs.snapshot()
         fault_path = op.get("read_error")
         if fault_path and w.get(fault_path) is None:
             fault_path = None          # nothing to fail on: the path does not exist
@@ -383,11 +410,21 @@ class Host(object):
         if name:
             new_file = {"name": name, "ext": "BIN", "ftype": 2, "dtype": 0, "load": ref["origin"], "exec": ref["origin"],
                         "data": ref["image"]}
+        self.check_wrote_elsewhere(r, snapshot, set(before), k)
+        # the same host file named by two or three switches of one invocation is judged as a group
+        named = [op[kind] for kind in KINDS if op.get(kind)]
+        shared = {p for p in named if named.count(p) > 1}
+        for path in sorted(shared):
+            self.judge_shared_target(r, op, path, before[path], ref, new_file, k)
         # the tool stops at the first container switch when there is no name
         stop = False
         for kind in KINDS:
             path = op.get(kind)
             if not path:
+                continue
+            if path in shared:
+                if kind != "bin" and new_file is None:
+                    stop = True
                 continue
             if kind == "bin":
                 binfile = {"name": "", "ext": "", "ftype": 2, "dtype": 0, "load": 0, "exec": 0, "data": ref["image"]}
@@ -405,6 +442,56 @@ class Host(object):
             if wrote and "content" in self.oracles:
                 self.check_c11(path, kind, new_file, ref, lines, k)
         return r, ref
+
+    def judge_shared_target(self, r, op, path, before, ref, new_file, k):
+        """One host file named for several switches: apply the save rules switch by switch (bin, cas, dsk) to a scratch
+        copy of the model; at most the saves that the rules allow may have happened, in that order."""
+        res = self.res
+        saved_model = dict(self.model[path]) if path in self.model else None
+        expected_writes = 0
+        ambiguous = False
+        stop = False
+        for kind in KINDS:
+            if op.get(kind) != path or stop:
+                continue
+            if kind == "bin":
+                files = [{"name": "", "ext": "", "ftype": 2, "dtype": 0, "load": 0, "exec": 0, "data": ref["image"]}]
+            elif new_file is None:
+                stop = True
+                continue
+            else:
+                files = [new_file]
+            exists = path in self.model and (expected_writes > 0 or before is not None)
+            if not exists and path in self.model:
+                self.model.pop(path)
+            verdict, result = self.expect_save(path, kind, op.get("append"), files) if (expected_writes or before is not None) else ("must_write", list(files) if kind != "dsk" or self.fits(files) else None)
+            if verdict == "either":
+                ambiguous = True
+                break
+            if verdict == "must_write" and result is not None:
+                expected_writes += 1
+                if kind == "bin":
+                    self.model[path] = {"kind": "bin", "files": [], "writer": "tool", "bytes_expected": b"".join(bytes(f["data"]) for f in result)}
+                else:
+                    self.model[path] = {"kind": kind, "files": result, "writer": "tool"}
+        opens = [ev for ev in r.events if ev[1] == "OPEN" and ev[2] == path and any(c in ev[3] for c in "wax+")]
+        res.stats["probe:same_path_for_several_switches"] += 1
+        if ambiguous:
+            self.model.pop(path, None)
+            return
+        if len(opens) > expected_writes:
+            res.violate("SHARED-TARGET-OVERWRITTEN", "%s is named by several switches; the save rules allow %d write(s) but it was opened for writing %d times" % (
+                path, expected_writes, len(opens)), k)
+            self.model.pop(path, None)
+            return
+        if expected_writes == 0:
+            if self.w.get(path) != before:
+                res.violate("TARGET-MODIFIED:shared", "%s changed although every save onto it had to be refused" % path, k)
+            if saved_model is not None:
+                self.model[path] = saved_model
+            return
+        if len(opens) == expected_writes:
+            self.check_model(k, only=[path])
 
     def check_c11(self, path, kind, new_file, ref, lines, k):
         """C11: the newest entry is the assembled program, at its origin, under its name."""
@@ -440,11 +527,14 @@ class Host(object):
         """file_util src --to_X dst [--append] [--files ...]"""
         res = self.res
         w = self.w
-        src, dst, want = op["src"], op["dst"], op["to"]
-        args = [src, "--to_" + want, dst]
-        also = [a for a in op.get("also", []) if a["to"] != want and a["dst"] not in (src, dst)]
+        src, want = op["src"], op["to"]
+        args = [src, "--to_" + want, op["dst"]]
+        dst = posixpath.normpath(op["dst"])
+        also = [dict(a, dst=posixpath.normpath(a["dst"]), spelled=a["dst"]) for a in op.get("also", [])
+                if a["to"] != want and posixpath.normpath(a["dst"]) not in (src, dst)]
         for a in also:
-            args += ["--to_" + a["to"], a["dst"]]
+            args += ["--to_" + a["to"], a["spelled"]]
+        snapshot = w.fs.snapshot()
         also_before = {a["dst"]: w.get(a["dst"]) for a in also}
         if op.get("append"):
             args.append("--append")
@@ -475,6 +565,7 @@ class Host(object):
             return r
         if src != dst and w.get(src) != src_before:
             res.violate("SOURCE-MODIFIED", "%s was modified by a conversion that reads it" % src, k)
+        self.check_wrote_elsewhere(r, snapshot, {dst} | {a["dst"] for a in also}, k)
         if sm is None or src == dst:
             # source missing / unknown: nothing may be written
             if w.get(dst) != before:
